@@ -816,7 +816,10 @@ func c13enc(r *Run, rng *Rng, pw string, n, k int, nWrong int) {
 		w := ws[(i+k)%len(ws)]
 		wd, wres := c13decrypt(enc, w)
 		r.Stat("enc:wrong:" + wres)
-		if wres == "ok" && n > 0 && (bytes.Equal(wd, raw) || (len(wd) >= n && n >= 16 && bytes.Equal(wd[:n], raw))) {
+		// n >= 8: Encrypt draws a random salt, and garbage truncated to a 1..7-byte plaintext length
+		// coincides with the plaintext with probability up to 1/256 per attempt (a false alarm seen
+		// once in a fresh sandbox); 8 bytes make a coincidence a 2^-64 event
+		if wres == "ok" && n >= 8 && (bytes.Equal(wd, raw) || (len(wd) >= n && n >= 16 && bytes.Equal(wd[:n], raw))) {
 			r.Fail("decrypt:wrong-password-content", fmt.Sprintf("Decrypt with wrong password %q returns the content protected with %q", w, pw), 0, op)
 		}
 		if wres == "PANIC" {
